@@ -1,13 +1,15 @@
 import Driver.Common
 import ScionVerif.Model.Layout
+import ScionVerif.Model.Access
 /-! line-protocol driver for the codec models (C02: view sizes and access ranges; C03: encode / decode)
 
 requests
 * `size <kind> <hex>`      → `ok <n>` | `err small <at> <required> <actual>` | `err other <msg>` | `panic`
   kinds: header stdpath onehop info hop raw udppkt scmppkt udp scmp scmpmsg:<Name>
+* `ranges <kind> <hex>`    → `name=off+len …` for the slice-returning accessors of an accepted view (Model/Access)
 * `const <name>`           → `<n>` (a generated constant, for the translator sanity check)
 -/
-open ScionVerif ScionVerif.Layout ScionVerif.Generated.Layout Driver
+open ScionVerif ScionVerif.Layout ScionVerif.Access ScionVerif.Generated.Layout Driver
 
 def us (s : String) : String := String.ofList (s.toList.map (fun c => if c == ' ' then '_' else c))
 
@@ -56,11 +58,57 @@ def constOf (s : String) : Option Nat :=
   | "SCMP_ERROR_MAX_PACKET_SIZE" => some SCMP_ERROR_MAX_PACKET_SIZE
   | _ => none
 
+def rngStr (name : String) (r : Nat × Nat) : String := s!"{name}={r.1}+{r.2 - r.1}"
+
+/-- the ranges of the slice-returning accessors the harness can observe by pointer arithmetic -/
+def observable (k : String) (v : Bytes) : Option (List String) :=
+  let find (accs : List Acc) (n : String) : List String :=
+    match accs.find? (fun a => a.name == n) with
+    | some a => a.ranges.map (rngStr n)
+    | none => []
+  match k with
+  | "header" =>
+    some (match pathRng v with
+      | some r => [rngStr "path" r]
+      | none => ["path=-"])
+  | "stdpath" =>
+    let accs := stdAccs v
+    let s := segFields v 0
+    let ic := infoCount s.1 s.2.1 s.2.2
+    let hc := hopCount s.1 s.2.1 s.2.2
+    let ci := readBits v StdPathMeta.CURR_INFO_FIELD_RNG
+    let ch := readBits v StdPathMeta.CURR_HOP_FIELD_RNG
+    let infoOff := StdPathMeta.SIZE_BYTES
+    let hopOff := infoOff + ic * InfoField.SIZE_BYTES
+    some (find accs "info_fields" ++ find accs "hop_fields" ++
+      (if ci < ic then [rngStr "curr_info_field" (infoOff + ci * InfoField.SIZE_BYTES, infoOff + ci * InfoField.SIZE_BYTES + InfoField.SIZE_BYTES)] else []) ++
+      (if ch < hc then [rngStr "curr_hop_field" (hopOff + ch * HopField.SIZE_BYTES, hopOff + ch * HopField.SIZE_BYTES + HopField.SIZE_BYTES)] else []))
+  | "raw" => some (find (rawAccs v) "header" ++ find (rawAccs v) "payload")
+  | "udppkt" =>
+    let pay := pktPayload v
+    let n := min pay.length (readBits pay UdpDatagram.LENGTH_RNG)
+    some (find (rawAccs v) "header" ++ find (rawAccs v) "payload" ++
+      [rngStr "udp" (pktHl v, pktHl v + n), rngStr "udp.payload" (pktHl v + UdpDatagram.HEADER_SIZE_BYTES, pktHl v + n)])
+  | "scmppkt" =>
+    let pay := pktPayload v
+    let kr := scmpRow (readBits (pay.take scmpMinSize) ScmpMessage.TYPE_RNG)
+    let n := if kr.varLen then pay.length else kr.headerSize
+    some (find (rawAccs v) "header" ++ find (rawAccs v) "payload" ++ [rngStr "scmp" (pktHl v, pktHl v + n)])
+  | "udp" => some (find (udpAccs v) "payload")
+  | _ => none
+
 def step (st : Unit) : List String → Unit × String
   | ["size", k, hx] =>
     match kindOf k, parseHex hx with
     | some kind, some bs => (st, sizeStr (requiredSize kind bs))
     | _, _ => (st, "bad-op")
+  | ["ranges", k, hx] =>
+    match parseHex hx with
+    | some bs =>
+      match observable k bs with
+      | some l => (st, String.intercalate " " l)
+      | none => (st, "bad-op")
+    | none => (st, "bad-op")
   | ["const", n] =>
     match constOf n with
     | some v => (st, toString v)
